@@ -61,7 +61,7 @@ def run_job(job, workdir):
         r = json.load(open(op))
     else:
         r = {'job': job['name'], 'verdict': 'error', 'messages': [{'state': 'NO_OUTPUT', 'message': err}],
-             'paths': 0, 'samples': [], 'failure': None, 'z3_queries': 0, 'z3_time': 0, 'goal_counts': {},
+             'paths': 0, 'samples': [], 'failure': None, 'analyses': len(job.get('subs', [1])), 'analyses_confirmed': 0, 'z3_queries': 0, 'z3_time': 0, 'goal_counts': {},
              'nontrivial_paths': 0, 'counters': {}, 'cpu_s': 0, 'aborted': 0, 'truncated': 0, 'ok_paths': 0,
              'abort_samples': []}
     r['wall_s'] = round(time.time() - t0, 2)
@@ -107,8 +107,10 @@ def check_property(prop, tier, spec):
             for j in mod.jobs(tier, prop) if _takes_prop(mod) else mod.jobs(tier):
                 j = dict(j)
                 j['harness'] = hn
-                j.setdefault('shape', {})
-                j['shape'] = dict(j['shape'], prop=prop)
+                if 'subs' not in j:
+                    j['subs'] = [{'name': j['name'], 'shape': j.get('shape', {}), 'params': j['params'],
+                                  'pre': j.get('pre', [])}]
+                j['subs'] = [dict(sb, shape=dict(sb.get('shape', {}), prop=prop)) for sb in j['subs']]
                 jobs.append(j)
         names = [j['name'] for j in jobs]
         assert len(set(names)) == len(names), 'duplicate job names'
@@ -126,9 +128,9 @@ def check_property(prop, tier, spec):
         for r in results:
             if r['verdict'] == 'refuted':
                 f = r['failure']
-                case = {'property': prop, 'harness': r['spec']['harness'], 'shape': r['spec']['shape'],
+                case = {'property': prop, 'harness': r['spec']['harness'], 'shape': f['shape'],
                         'args': f['args'], 'weights': f['weights'], 'label': f['label'], 'detail': f['detail'],
-                        'job': r['job']}
+                        'job': r['job'], 'analysis': f.get('sub')}
                 h = hashlib.sha1(json.dumps(case, sort_keys=True).encode()).hexdigest()[:10]
                 rpath = os.path.join(ROOT, 'replays', f'{prop}-{r["job"]}-{h}.json')
                 with open(rpath, 'w') as fp:
@@ -149,7 +151,7 @@ def check_property(prop, tier, spec):
             elif r['verdict'] in ('error', 'pre_unsat'):
                 harness_errors.append(f'job {r["job"]}: {r["verdict"]}: {r["messages"]}')
             elif r['verdict'] == 'inconclusive':
-                why = 'budget exhausted before the search tree'
+                why = 'budget exhausted before the search tree: ' + ','.join(r.get('analyses_inconclusive', [])[:5])
                 if r.get('aborted'):
                     why = f'{r["aborted"]} path(s) aborted by an exception in the code under test: ' + \
                           (r['abort_samples'][0]['detail'][:300] if r.get('abort_samples') else '')
@@ -174,7 +176,7 @@ def check_property(prop, tier, spec):
             for s in r.get('samples', [])[:spec.get('samples_per_job', 2)]:
                 if s['args'] is None:
                     continue
-                cases.append({'harness': r['spec']['harness'], 'shape': r['spec']['shape'], 'args': s['args'],
+                cases.append({'harness': r['spec']['harness'], 'shape': s['shape'], 'args': s['args'],
                               'weights': s['weights']})
                 expect.append((r['job'], s))
         cases, expect = cases[:200], expect[:200]
@@ -185,7 +187,7 @@ def check_property(prop, tier, spec):
             rep = []
         for (job, s), rr in zip(expect, rep):
             functions.update(rr.get('functions', []))
-            if rr['outcome'] == 'ok' and rr['goals'] == s['goals']:
+            if rr['outcome'] == 'ok' and set(s['goals']) <= set(rr['goals']):
                 validated += 1
             elif not violations:
                 harness_errors.append(f'sample path of job {job} does not replay identically: symbolic goals '
@@ -214,7 +216,7 @@ def check_property(prop, tier, spec):
         samples = []
         for r in results[:]:
             for s in r.get('samples', [])[:1]:
-                samples.append({'job': r['job'], 'shape': r['spec']['shape'], 'args': s['args'],
+                samples.append({'job': r['job'], 'analysis': s.get('sub'), 'shape': s['shape'], 'args': s['args'],
                                 'tie_break_weights': s['weights'], 'goals': s['goals']})
         samples = samples[:12]
         for l in lemma_results[:4]:
@@ -252,6 +254,8 @@ def check_property(prop, tier, spec):
                         'states = symbolic states at which the monitors were evaluated (initial state of every path + one per '
                         'executed event/operation), transitions = executed events/operations over all paths.',
                 'exhaustive': bool(exhaustive),
+                'analyses': sum(r.get('analyses', 1) for r in results),
+                'analyses_confirmed': sum(r.get('analyses_confirmed', 0) for r in results),
                 'jobs': len(results), 'jobs_confirmed': sum(r['verdict'] == 'confirmed' for r in results),
                 'jobs_refuted': sum(r['verdict'] == 'refuted' for r in results),
                 'jobs_inconclusive': len([r for r in results if r['verdict'] == 'inconclusive']),
@@ -287,7 +291,7 @@ def check_property(prop, tier, spec):
         for job, label, detail, rpath in violations:
             print(f'VIOLATION property={prop} replay={rpath}')
             print(f'  job={job} assertion={label!r} {detail}')
-        print(f'{prop} {tier}: jobs={len(results)} confirmed={ev["coverage"]["jobs_confirmed"]} '
+        print(f'{prop} {tier}: analyses={ev["coverage"]["analyses_confirmed"]}/{ev["coverage"]["analyses"]} jobs={len(results)} confirmed={ev["coverage"]["jobs_confirmed"]} '
               f'refuted={ev["coverage"]["jobs_refuted"]} inconclusive={ev["coverage"]["jobs_inconclusive"]} '
               f'paths={paths} z3_queries={ev["coverage"]["z3_queries"]} solver_s={ev["coverage"]["solver_s"]} '
               f'lemmas={len(lem_ok)}/{len(lemma_results)} validated_samples={validated} wall={ev["wall_s"]}s')
